@@ -178,12 +178,14 @@ def _gen_artifact(rng):
         img = bytearray(rng.getrandbits(8) for _ in range(n))
     else:
         img = bytearray(rng.choice([0, 16, 17, 18, 20]) for _ in range(n))
+    # (several payloads of one build share their key: the same key is applied to payloads of different lengths)
+    shared_key = bytes(rng.getrandbits(8) for _ in range(4))
     for _ in range(rng.choice([0, 1, 1, 2, 3, 4])):
         if n < 4:
             break
         p = rng.choice([0, n - 4, rng.randint(0, n - 4), rng.randint(0, n - 4)])
-        size = rng.choice([0, 1, 3, 4, 5, 8, 17, 1000, 0xFFFFFFFF, rng.randint(0, 64)])
-        key = rng.choice([b"\x00\x00\x00\x00", bytes(rng.getrandbits(8) for _ in range(4))])
+        size = rng.choice([0, 1, 3, 4, 5, 8, 17, 1000, 0xFFFFFFFF, 0x80000000, rng.randint(0, 64)])
+        key = rng.choice([b"\x00\x00\x00\x00", bytes(rng.getrandbits(8) for _ in range(4)), shared_key, shared_key])
         hdr = struct.pack("<II", p + 16, size) + key + bytes(rng.getrandbits(8) for _ in range(8))
         img[p:p + len(hdr)] = hdr[: max(0, n - p)] if rng.random() < 0.3 else hdr
     img = bytes(img)
